@@ -77,7 +77,8 @@ def run_case(spec):
     drv.factories = {"A": {}, "B": {}}
     sch = Scheduler(world, drv, strategy=rng.choice(["random", "pct", "netfirst", "timersfirst"]), chunking="mixed",
                     tiny_budget=rng.choice([100, 1000]))
-    probes = {"n": 0, "viol": [], "selected_at": {}, "connected_once": False, "max_live_selected": 0}
+    probes = {"n": 0, "viol": [], "selected_at": {}, "connected_once": False, "max_live_selected": 0,
+              "candidate_cut_this_generation": False, "far_end_gone": 0}
 
     def relay_peer(proto_end):
         """the DilatedConnectionProtocol at the far side of proto_end (directly or through the relay)"""
@@ -99,6 +100,7 @@ def run_case(spec):
             probes["viol"].append(("C11/roles-not-complementary", "A=%s B=%s" % (ra, rb)))
         if dp.both_connected():
             probes["connected_once"] = True
+            probes["candidate_cut_this_generation"] = False
         for n in "AB":
             ends = dp.selected_ends(n)
             probes["max_live_selected"] = max(probes["max_live_selected"], len(ends))
@@ -110,7 +112,11 @@ def run_case(spec):
                     probes["selected_at"][p] = world.step
                     if dp.role(n) is FOLLOWER:
                         far = relay_peer(e)
-                        if far is None or state_of(far) != "selected" or dp.party_of(far) == n:
+                        if far is None:
+                            # the far side (or the relay's pairing) is already gone: the Leader's confirmation was
+                            # sent while it lived; nothing can be read off it any more
+                            probes["far_end_gone"] += 1
+                        elif state_of(far) != "selected" or dp.party_of(far) == n:
                             probes["viol"].append(("C11/follower-uses-unconfirmed-connection",
                                                    "%s (follower) selected a connection whose far end is %s in state %s" % (
                                                        n, type(far).__name__, state_of(far) if far is not None else None)))
@@ -122,10 +128,13 @@ def run_case(spec):
     def fault(kind):
         link = dp.selected_link()
         if kind == "candidate":
+            # the property's premise: a non-selected candidate may be lost "as long as one candidate survives",
+            # so at most one candidate is cut per generation and only while another one is alive
             cands = [l for l in dp.l2_links() if l is not link and all(e.connected for e in l.ends)]
             live = [l for l in dp.l2_links() if all(e.connected for e in l.ends)]
-            if cands and len(live) > 1:
+            if cands and len(live) > 1 and not probes["candidate_cut_this_generation"]:
                 r.cut(rng.choice(cands))
+                probes["candidate_cut_this_generation"] = True
                 faults["done"] += 1
                 faults["kinds"].append(kind)
             else:
@@ -203,7 +212,7 @@ def run_case(spec):
     return {"violations": viol, "nontrivial": nontrivial,
             "counters": {"probes": probes["n"], "connected_cases": int(probes["connected_once"]), "faults": faults["done"],
                          "faults_skipped": faults["skipped"], "reconverged": int(converged and same_link),
-                         "l2_links": len(dp.l2_links()), "relay_cases": int(spec["relay"]),
+                         "l2_links": len(dp.l2_links()), "relay_cases": int(spec["relay"]), "far_end_gone_at_probe": probes["far_end_gone"],
                          **{"fault_" + k: faults["kinds"].count(k) for k in set(faults["kinds"])},
                          "notrans_seen": len(MON.notrans)},
             "sets": {"dilation_notrans": ["%s.%s/%s" % k for k in set(MON.notrans)],
